@@ -1255,6 +1255,33 @@ func bxvParseCases(fails *[]bxvFailure) int {
 			}
 		}
 	}
+	// the expression budget: every budget gives evaluator xor error, never a
+	// panic, and grammar.Parse under the same budget agrees
+	for _, in := range []string{"a == 1", "a == 1 and b == 2", "((a == 1))", "any a as x { x == 1 }", "a ==", "\xff"} {
+		for _, budget := range []uint64{1, 2, 5, 20, 56, 57, 200, 517, 1000000} {
+			n++
+			func() {
+				defer func() {
+					if r := recover(); r != nil {
+						*fails = append(*fails, bxvFailure{Kind: "panic", Expr: strconv.Quote(in), Datum: "-", Opts: fmt.Sprintf("WithMaxExpressions(%d)", budget), Got: "panicked: " + fmt.Sprint(r)})
+					}
+				}()
+				pval, perr := grammar.Parse("", []byte(in), grammar.MaxExpressions(budget))
+				if perr == nil {
+					if _, ok := pval.(grammar.Expression); !ok {
+						*fails = append(*fails, bxvFailure{Kind: "mismatch", Expr: strconv.Quote(in), Datum: "-", Opts: fmt.Sprintf("MaxExpressions(%d)", budget), Got: fmt.Sprintf("Parse returned %T with a nil error", pval), Want: "an Expression or an error"})
+					}
+				}
+				ev, cerr := CreateEvaluator(in, WithMaxExpressions(budget))
+				if (ev != nil) == (cerr != nil) || (perr == nil) != (cerr == nil) {
+					*fails = append(*fails, bxvFailure{Kind: "mismatch", Expr: strconv.Quote(in), Datum: "-", Opts: fmt.Sprintf("WithMaxExpressions(%d)", budget), Got: fmt.Sprintf("CreateEvaluator (%v, %v), Parse err=%v", ev != nil, cerr, perr), Want: "evaluator xor error, same verdict as Parse"})
+				}
+				if ev != nil {
+					ev.Evaluate(map[string]interface{}{"a": 1, "b": 2})
+				}
+			}()
+		}
+	}
 	// statement-shaped inputs with a bad piece
 	for _, s := range []string{`foo == "\\q"`, `foo == "a\\"`, `foo["\\x"] == 1`, "foo == \"\xff\"", "foo == `\xc3\x28`", `"/a/~2" == 1`, `x == "/~"`, "(((((a == 1)))))", "((a == 1)", "a == 1))",
 		"any a as x, x { x == 1 }", "any a as { x == 1 }", "a == 1 and", "not", "a in", "1 in", `a matches "["`, "a is", "a is not", "all a as x {}", "a == 01", "a == 1.", "a == -", `a["b" == 1`} {
